@@ -79,6 +79,12 @@ Frame(type) ==
   CASE type = 1 -> V("T")
     [] type = 2 -> LET er == Unit(Sub(Dvec, Mul(Dot(Ez, Dvec), Ez))) IN Cols(er, Cross(Ez, er), Ez)
     [] type = 3 -> LET er == Unit(Dvec)  ephi == Unit(Cross(Ez, er)) IN Cols(er, Cross(ephi, er), ephi)
+\* ON the polar axis of a cylindrical / spherical system the angles are undefined; the convention (Nastran's, and the limit of Frame
+\* along the system's x-z half-plane) is theta = 0 for cylindrical and phi = 0 for spherical: the azimuthal direction is the system's y axis
+FrameAxis(type) ==
+  CASE type = 1 -> V("T")
+    [] type = 2 -> V("T")
+    [] type = 3 -> LET er == Unit(Dvec)  ephi == Col(V("T"), 1) IN Cols(er, Cross(ephi, er), ephi)
 \* rigid-body rows of one grid: translations [G', -G' skew(r)], rotations [0, G'] with r = x - x0
 RbTT == Tr(V("G"))
 RbTR == Neg(MatMul(Tr(V("G")), Skew(Sub(V("x"), V("x0")))))
@@ -93,5 +99,5 @@ ASSUME \E t \in Topologies : Depth(t, K) = K
 GridPairs == (0..K) \X (0..K)
 ExportTopo == Export => PrintT(<<"TOPO", q[1], q[2], [c \in 1..K |-> <<Tm(q, c), Org(q, c), Depth(q, c)>>], GridPairs>>)
 ExportGeneric == (Export /\ q = CHOOSE t \in Topologies : TRUE) =>
-   PrintT(<<"GENERIC", [t \in Types |-> [basic |-> Basic(t), frame |-> Frame(t), rect |-> Rect(t, V("p"))]], [tt |-> RbTT, tr |-> RbTR]>>)
+   PrintT(<<"GENERIC", [t \in Types |-> [basic |-> Basic(t), frame |-> Frame(t), frameaxis |-> FrameAxis(t), rect |-> Rect(t, V("p"))]], [tt |-> RbTT, tr |-> RbTR]>>)
 =============================================================================
